@@ -87,8 +87,22 @@ def is_sym(v):
         return SymbolicNumberAble in type(v).__mro__
 
 
+def _has_sym(v, depth=0):
+    """a symbolic number, or a plain container holding one (CrossHair's own formatting deep-realizes those)"""
+    if is_sym(v):
+        return True
+    if depth > 4:
+        return False
+    t = type(v)
+    if t is dict:
+        return any(_has_sym(x, depth + 1) for x in v.values())
+    if t in (list, tuple):
+        return any(_has_sym(x, depth + 1) for x in v)
+    return False
+
+
 def _fmt(self, fmt):
-    if is_sym(self.value):
+    if _has_sym(self.value):
         self.formatted = "<sym>"
     else:
         self.formatted = format(self.value, fmt)
@@ -96,7 +110,7 @@ def _fmt(self, fmt):
 
 
 def _str(self):
-    if is_sym(self.value):
+    if _has_sym(self.value):
         self.formatted = "<sym>"
     else:
         self.formatted = str(self.value)
